@@ -250,3 +250,49 @@ func VerifC06Prune() {
 	r := e.k.GetProviderAddrFromConsumerAddr(e.ctx, cid, types.NewConsumerConsAddress(unknown))
 	vh.Assert(bytes.Equal(r.ToSdkConsAddr(), unknown), "C06.never-assigned-address-resolves-to-itself")
 }
+
+// VerifC05NewValidatorHook: the staking hook AfterValidatorCreated refuses
+// (panics) exactly when the new validator's consensus address is known -
+// currently assigned or recently replaced - on some ACTIVE consumer
+// (registered, initialized or launched), whatever the consumer's client state.
+func VerifC05NewValidatorHook() {
+	nv := 2
+	e := newVEnv(nv)
+	cons := []string{"0", "1"}
+	e.k.setConsumerId(e.ctx, 2) // two consumer ids issued so far
+	known := false
+	for i, cid := range cons {
+		phase := types.ConsumerPhase(vh.ConcretizeInt(vh.Int(vh.Sprintf("phase%d", i)), 0, 5))
+		if phase != types.CONSUMER_PHASE_UNSPECIFIED {
+			e.k.SetConsumerPhase(e.ctx, cid, phase)
+		}
+		hasClient := vh.Bool(vh.Sprintf("has_client%d", i))
+		if vh.Guard(hasClient) {
+			e.k.SetConsumerClientId(e.ctx, cid, vh.Sprintf("07-tendermint-%d", i))
+		}
+		vh.EndGuard()
+		// validator 0 uses (or recently used) the consensus key of the new validator 1 on this consumer
+		uses := vh.Bool(vh.Sprintf("key_known_on%d", i))
+		if vh.Guard(uses) {
+			e.k.SetValidatorByConsumerAddr(e.ctx, cid, types.NewConsumerConsAddress(vConsAddr(1)), types.NewProviderConsAddress(vConsAddr(0)))
+		}
+		vh.EndGuard()
+		active := phase == types.CONSUMER_PHASE_REGISTERED || phase == types.CONSUMER_PHASE_INITIALIZED || phase == types.CONSUMER_PHASE_LAUNCHED
+		known = vh.Or(known, vh.And(uses, active))
+	}
+	panicked := false
+	func() {
+		defer func() {
+			if r := recover(); r != nil {
+				panicked = true
+			}
+		}()
+		_ = e.k.Hooks().AfterValidatorCreated(e.ctx, vOperator(1))
+	}()
+	vh.Reach("after-hook")
+	if panicked {
+		vh.Assert(known, "C05.hook.refuses-only-keys-known-on-an-active-consumer")
+	} else {
+		vh.Assert(!known, "C05.hook.new-validator-cannot-reuse-a-key-known-on-an-active-consumer")
+	}
+}
